@@ -256,29 +256,24 @@ impl TestRunner {
             self.ram.read().unwrap().ram[self.cpu.get_program_counter() as usize]
         );
 
-        // Check active elements
+        // Check active elements. Traces are consumed when they are hit; assertions stay armed, so that an
+        // assertion inside a loop or a subroutine is evaluated every time the cpu reaches it.
+        let pc = self.cpu.get_program_counter();
         let mut active_traces = vec![];
         let mut active_assertions = vec![];
         let mut idx = 0;
         while idx < self.test_elements.len() {
-            let should_remove = match &self.test_elements[idx] {
-                TestElement::Assertion(e) => {
-                    e.snapshot.pc.as_u16() == self.cpu.get_program_counter()
+            match &self.test_elements[idx] {
+                TestElement::Assertion(e) if e.snapshot.pc.as_u16() == pc => {
+                    active_assertions.push(idx);
+                    idx += 1;
                 }
-                TestElement::Trace(e) => e.snapshot.pc.as_u16() == self.cpu.get_program_counter(),
-            };
-
-            if should_remove {
-                match self.test_elements.remove(idx) {
-                    TestElement::Assertion(a) => {
-                        active_assertions.push(a);
-                    }
-                    TestElement::Trace(t) => {
+                TestElement::Trace(e) if e.snapshot.pc.as_u16() == pc => {
+                    if let TestElement::Trace(t) = self.test_elements.remove(idx) {
                         active_traces.push(t);
                     }
                 }
-            } else {
-                idx += 1;
+                _ => idx += 1,
             }
         }
 
@@ -288,6 +283,10 @@ impl TestRunner {
             let ram = self.ram.read().unwrap();
             let fired: Vec<serde_json::Value> = active_assertions
                 .iter()
+                .filter_map(|idx| match &self.test_elements[*idx] {
+                    TestElement::Assertion(a) => Some(a),
+                    _ => None,
+                })
                 .map(|a| {
                     let loc = self.tree.code_map.look_up_span(a.expr.span);
                     serde_json::json!({"line": loc.begin.line + 1, "col": loc.begin.column + 1})
@@ -320,18 +319,30 @@ impl TestRunner {
             self.formatted_traces.push(FormattedTrace(fmt));
         }
 
-        for mut assertion in active_assertions {
-            assertion
-                .snapshot
-                .symbols
-                .ensure_cpu_symbols(self.registers(), self.cpu.get_status_register());
-            let ctx = self.ctx.lock().unwrap();
-            let evaluator = assertion.snapshot.get_evaluator(ctx.functions());
-            let eval_result = evaluator
-                .evaluate_expression(&assertion.expr, false)
-                .ok()
-                .flatten();
-            if eval_result == Some(SymbolData::Number(0)) || eval_result.is_none() {
+        for idx in active_assertions {
+            let registers = self.registers();
+            let status = self.cpu.get_status_register();
+            let failed = match &mut self.test_elements[idx] {
+                TestElement::Assertion(assertion) => {
+                    assertion
+                        .snapshot
+                        .symbols
+                        .ensure_cpu_symbols(registers, status);
+                    let ctx = self.ctx.lock().unwrap();
+                    let evaluator = assertion.snapshot.get_evaluator(ctx.functions());
+                    let eval_result = evaluator
+                        .evaluate_expression(&assertion.expr, false)
+                        .ok()
+                        .flatten();
+                    eval_result == Some(SymbolData::Number(0)) || eval_result.is_none()
+                }
+                _ => false,
+            };
+            if failed {
+                let assertion = match self.test_elements.remove(idx) {
+                    TestElement::Assertion(assertion) => assertion,
+                    _ => unreachable!(),
+                };
                 let message = assertion.failure_message.clone().unwrap_or_else(|| {
                     let expr = format!("{}", &assertion.expr.data).trim().to_string();
                     format!("assertion failed: {}", expr)
